@@ -688,7 +688,7 @@ func init() {
 		},
 		Aux: racePass,
 		Phases: []fw.Phase{
-			{Name: "history-closure", Space: "BFS over package states x 153 operations (incl. special bytes inside valid UTF-8 and raw, NUL-carrying inputs, equal-length pairs sharing their first N bytes for N around buffer sizes and new constants), history depth <=3 (quick) / <=4 (thorough), state cap 400 / 4000", Share: 2, Serial: true,
+			{Name: "history-closure", Space: "BFS over package states x 153 operations (incl. special bytes inside valid UTF-8 and raw, NUL-carrying inputs, equal-length pairs sharing their first N bytes for N around buffer sizes and new constants), history depth <=3 (quick) / <=4 (thorough), state cap 400 / 4000", Share: 6, Serial: true,
 				Run: runHist, Eval: evalHist},
 			{Name: "long-history", Space: "one linear history of 700 (quick) / 6000 (thorough) calls cycling the 68 short operations in a rotating order; every result compared with the fresh-process reference", Share: 1, Serial: true,
 				Run: func(w *fw.W) {
